@@ -106,20 +106,42 @@ Reset(ev) ==
 
 Tm(ev) == <<ev.t, IF "tn" \in DOMAIN ev THEN ev.tn ELSE 0>>
 
+\* rule equality ignores the id: an unchanged rule keeps its schedule across a reload (C11)
+SameF(a, b) == a.res = b.res /\ a.thr[1] * b.thr[2] = b.thr[1] * a.thr[2] /\ a.I = b.I /\ a.maxq = b.maxq
+SameH(a, b) == /\ a.res = b.res /\ a.idx = b.idx /\ a.key = b.key /\ a.thr = b.thr /\ a.dur = b.dur
+               /\ a.maxq = b.maxq /\ a.spec = b.spec /\ a.cap = b.cap
+Range(f) == {f[x] : x \in DOMAIN f}
+
 LoadFlow(ev) ==
-    /\ ev.e = "load" /\ ev.fam = "flow" /\ ev.op = "all" /\ on /\ Leq(now, Tm(ev)) /\ now' = Tm(ev)
-    /\ LET rs == {r \in SeqToSet(ev.rules) : r.res # "" /\ r.thr[1] >= 0} IN
+    /\ ev.e = "load" /\ ev.fam = "flow" /\ ev.op \in {"all", "res"} /\ on /\ Leq(now, Tm(ev)) /\ now' = Tm(ev)
+    /\ LET scope(r) == ev.op = "all" \/ r.res = ev.res
+           rs == {r \in SeqToSet(ev.rules) : r.res # "" /\ r.thr[1] >= 0 /\ scope(r)}
+                 \cup {o \in Range(frule) : ~scope(o)}
+           oldOf(r) == {o \in Range(frule) : SameF(o, r)}
+       IN
        /\ frule' = [res \in {r.res : r \in rs} |-> CHOOSE r \in rs : r.res = res]
        /\ flast' = [id \in {r.id : r \in rs} |->
-                      IF id \in DOMAIN flast THEN flast[id] ELSE [fresh |-> TRUE, last |-> Zero]]
+                      LET r == CHOOSE x \in rs : x.id = id IN
+                      IF oldOf(r) # {} THEN flast[(CHOOSE o \in oldOf(r) : TRUE).id]
+                      ELSE [fresh |-> TRUE, last |-> Zero]]
     /\ slept' = Zero
     /\ UNCHANGED <<on, hrule, hlast>>
 
-LoadHot(ev) ==
-    /\ ev.e = "load" /\ ev.fam = "hot" /\ ev.op = "all" /\ on /\ Leq(now, Tm(ev)) /\ now' = Tm(ev)
-    /\ LET rs == {r \in SeqToSet(ev.rules) : r.res # "" /\ r.dur > 0} IN
+\* inh: a changed rule with the same duration may inherit the per-value schedule of the old one
+LoadHot(ev, inh) ==
+    /\ ev.e = "load" /\ ev.fam = "hot" /\ ev.op \in {"all", "res"} /\ on /\ Leq(now, Tm(ev)) /\ now' = Tm(ev)
+    /\ LET scope(r) == ev.op = "all" \/ r.res = ev.res
+           rs == {r \in SeqToSet(ev.rules) : r.res # "" /\ r.dur > 0 /\ scope(r)}
+                 \cup {o \in Range(hrule) : ~scope(o)}
+           oldOf(r) == {o \in Range(hrule) : SameH(o, r)}
+           reuse(r) == {o \in Range(hrule) : o.res = r.res /\ o.dur = r.dur /\ o.cap = r.cap}
+       IN
        /\ hrule' = [res \in {r.res : r \in rs} |-> CHOOSE r \in rs : r.res = res]
-       /\ hlast' = [id \in {r.id : r \in rs} |-> IF id \in DOMAIN hlast THEN hlast[id] ELSE <<>>]
+       /\ hlast' = [id \in {r.id : r \in rs} |->
+                      LET r == CHOOSE x \in rs : x.id = id IN
+                      IF oldOf(r) # {} THEN hlast[(CHOOSE o \in oldOf(r) : TRUE).id]
+                      ELSE IF inh /\ reuse(r) # {} THEN hlast[(CHOOSE o \in reuse(r) : TRUE).id]
+                      ELSE <<>>]
     /\ slept' = Zero
     /\ UNCHANGED <<on, frule, flast>>
 
